@@ -42,8 +42,12 @@ func ZZ_C02_roundsWithNodeChurn() {
 	ds.Spec.Template = tpl("B")
 	datadoghqv1alpha1.DefaultExtendedDaemonSetSpec(&ds.Spec, datadoghqv1alpha1.ExtendedDaemonSetSpecStrategyCanaryValidationModeAuto)
 	// a migration finished long ago may have left its annotation behind, naming a DaemonSet that no longer exists
-	if nondet.Bool("oldDaemonsetAnnotationLeftBehind") {
+	// ... or the object carries a template-hash annotation of its own, stale (a manifest written from an export)
+	switch nondet.String("edsAnnotationLeftBehind", "none", "old-daemonset", "stale-template-hash") {
+	case "old-daemonset":
 		ds.Annotations[datadoghqv1alpha1.ExtendedDaemonSetOldDaemonsetAnnotationKey] = "long-gone"
+	case "stale-template-hash":
+		ds.Annotations[datadoghqv1alpha1.MD5ExtendedDaemonSetAnnotationKey] = "0123456789abcdef0123456789abcdef"
 	}
 	rsOld := zzRS("foo-a", hash("A"))
 	rsOld.Spec.Template = tpl("A")
